@@ -23,7 +23,8 @@ RULE = ("(E2) explicit-state BFS over ALL histories of API calls (alphabet of 19
         "(package 'state' modules: bound 2 for the two-ckd harnesses, bound 1 otherwise; thorough: all pairs, bound 3 / 2, three threads, and "
         "bytecode-instruction granularity via sys.monitoring at bound 1) and at EVERY line of EVERY package module incl. the pure helpers (bound 1); "
         "every thread's result must equal the reference, final children lists must be consistent, root unchanged. "
-        "states/transitions count E2; schedules are reported separately")
+        "states/transitions count E2; schedules are reported separately"
+        " (E2b) 'companion' histories: six wallets imported from extended keys that share key bytes under different network / depth / chain code, 24 requests, depth 2 (thorough 3) plus long cyclic histories: every answer is a function of that wallet's own root. Locks of the package are cooperative objects owned by the scheduler: blocking points, deadlock = violation.")
 
 ROOTX = None
 
